@@ -569,12 +569,19 @@ def run_serializable_case(case, tmp: Path) -> Outcome:
         if rb[0] == "exc":
             out.fail("copy-affects-original", "original cannot create a directory any more: " + rb[1])
             return out
-        if ra[1] == rb[1] or not ra[1].is_dir() or not rb[1].is_dir():
-            out.fail("behaviour-differs:DirectoryCreator", f"directories are not unique/created: copy={ra[1]} original={rb[1]}")
+        if not ra[1].is_dir() or not rb[1].is_dir():
+            out.fail("behaviour-differs:DirectoryCreator", f"directories are not created: copy={ra[1]} original={rb[1]}")
         if case.get("naming", "NUMBERED") == "NUMBERED":
+            # The counter carries over *as a value*: the copy and the original count independently from the same
+            # value, so both make directory n_pre+1 (the property does not ask two independent counters to agree
+            # on unique names; the shared-memory counter is shared through process inheritance only).
             expected = str(int(case.get("n_pre", 0)) + 1)
             if ra[1].name != expected:
                 out.fail("counter-not-carried", f"the restored creator made directory {ra[1].name!r}, the original would have made {expected!r}")
+            if rb[1].name != expected:
+                out.fail("copy-affects-original", f"after the copy made a directory the original made {rb[1].name!r} instead of {expected!r}")
+        elif ra[1] == rb[1]:
+            out.fail("behaviour-differs:DirectoryCreator", f"UUID-named directories are not unique: copy={ra[1]} original={rb[1]}")
         return out
     if what == "DOELibrary":
         from gemseo.algos.doe.factory import DOELibraryFactory
